@@ -58,13 +58,14 @@ def unitQuantum (s : RegState) (u : Nat) : Option Rat :=
     | some q, some e => some (q / e)
     | _, _ => none
 
-/-- `Unit.__eq__` (`none`: the code trips its own assertion) -/
+/-- `Unit.__eq__`: units of one type are equal when their scales are; a unit
+without scale equals itself only (since fix c2c5a04 also next to scaled units
+of its type; `Option` is kept for the callers: the result is never `none`) -/
 def unitEq (s : RegState) (u v : Nat) : Option Bool :=
   if s.unitCls u != s.unitCls v then some false
   else match (s.unit u).equiv, (s.unit v).equiv with
-    | none, none => some (u == v)
     | some a, some b => some (a == b)
-    | _, _ => none
+    | _, _ => some (u == v)
 
 /-- `Unit._get_factor(other)`; outer `none` = TypeError (different class) -/
 def unitFactor (s : RegState) (u v : Nat) : Option (Option Rat) :=
@@ -72,7 +73,7 @@ def unitFactor (s : RegState) (u v : Nat) : Option (Option Rat) :=
   else if (s.cls (s.unitCls u)).refUnit.isNone then some none
   else match (s.unit u).equiv, (s.unit v).equiv with
     | some a, some b => some (some (a / b))
-    | _, _ => some none     -- (assertion in the code; unreachable for coherent states)
+    | _, _ => some none     -- a unit declared without definition: not convertible
 
 /-- `cls(amount, unit)` / `Quantity(amount, unit)`: the single choke point
 that rounds `amount / quantum` to an integer. `cls = none` is the generic
